@@ -3,6 +3,7 @@
 package dtlcp
 
 import (
+	"context"
 	"errors"
 	"net"
 )
@@ -20,9 +21,28 @@ type VerifTx struct{ c *Conn }
 // half is switched to the cipher of suite id the way establishKeys + changeCipherSpec do
 // (id 0: no cipher, epoch 0).
 func VerifNewTx(pconn net.PacketConn, remote net.Addr, id uint16, pmtu int) (*VerifTx, error) {
-	c := Client(pconn, remote, &Config{PMTU: pmtu})
+	return VerifNewTxCfg(pconn, remote, id, &Config{PMTU: pmtu}, false)
+}
+
+// VerifNewTxCfg is VerifNewTx for a configuration the caller built (directly, through
+// Config.Clone, ...). With forClient the connection is created by Server(pconn, remote, cfg)
+// and the real selectConfigForClient runs once on a TLCP ClientHello, so that the write path
+// reads whatever configuration cfg.GetConfigForClient returned; otherwise it is created by
+// Client(pconn, remote, cfg).
+func VerifNewTxCfg(pconn net.PacketConn, remote net.Addr, id uint16, cfg *Config, forClient bool) (*VerifTx, error) {
+	var c *Conn
+	if forClient {
+		c = Server(pconn, remote, cfg)
+	} else {
+		c = Client(pconn, remote, cfg)
+	}
 	c.vers = VersionTLCP
 	c.haveVers = true
+	if forClient {
+		if err := c.selectConfigForClient(context.Background(), &clientHelloMsg{vers: VersionTLCP}); err != nil {
+			return nil, err
+		}
+	}
 	if id != 0 {
 		s := cipherSuites[id]
 		if s == nil {
